@@ -5,7 +5,7 @@
    In part 2 `tainted s = false` excludes exactly the histories in which release_on_behalf_of(b) was called
    before b's acquire call returned (O2); duplicate borrowers among concurrent acquire_on_behalf_of calls are
    inside every statement (F16: the second caller is refused, C10_lim_waiting_borrower_rejected). *)
-From AV Require Import Base C10Defs C10Lib Sem SemProofs SemThms.
+From AV Require Import Base C10Defs C10Lib Sem SemProofs SemThms PrimImp SemImp SemGen SemGenEq.
 
 (* ===================================== Semaphore ===================================== *)
 
@@ -102,8 +102,141 @@ Theorem C10_sem_quiescent_initial : forall fa iv mx s, max_ok iv mx -> reach fa 
 Proof. exact sem_quiescent_initial. Qed.
 Print Assumptions C10_sem_quiescent_initial.
 
+(* ---- tie T (Semaphore): the segments of acquire (cut at its awaits) / acquire_nowait / release / the getters,
+   regenerated from /repo's source by tools/translate_prims.py (SemGen.v) and interpreted by PrimImp.exec, ARE the
+   model's step, for every state and task.  `lift` (SemImp.v) rebuilds a Sem.st from the interpretation result: the
+   fields the code touches come from the heap, the ghost fields from the events of the segment;
+   C10_tie_sem_lift_spec spells every field out.  phase_of / mustc are the asyncio Task's state; held / infl / extra /
+   dropped / enq are history variables of the observer, not state of the Semaphore object. ---- *)
+Theorem C10_tie_sem_acquire_entry : forall s t,
+  phase_of s t = Idle ->
+  step s (AcqBegin t) = lift s t KAcquire (exec sem_acquire_entry t (loc_entry None None) log0 (core s)).
+Proof. exact tie_acquire_entry. Qed.
+Print Assumptions C10_tie_sem_acquire_entry.
+
+Theorem C10_tie_sem_acquire_yield_resumed : forall s t,
+  phase_of s t = FastYield -> mustc s t = false ->
+  step s (Resume t) =
+  lift (leave s t) t KAcquire
+    (exec sem_acquire_yield_resumed t (loc_resume None None None) log0 (core (leave s t))).
+Proof. exact tie_acquire_yield_resumed. Qed.
+Print Assumptions C10_tie_sem_acquire_yield_resumed.
+
+Theorem C10_tie_sem_acquire_yield_cancelled : forall s t,
+  phase_of s t = FastYield -> mustc s t = true ->
+  step s (Resume t) =
+  lift (leave s t) t KAcquireC
+    (exec sem_acquire_yield_cancelled t (loc_resume None None None) log0 (core (leave s t))).
+Proof. exact tie_acquire_yield_cancelled. Qed.
+Print Assumptions C10_tie_sem_acquire_yield_cancelled.
+
+Theorem C10_tie_sem_acquire_wait_resumed : forall s t f,
+  phase_of s t = Waiting f -> futs s f = FSet -> mustc s t = false ->
+  step s (Resume t) =
+  lift (leave s t) t KAcquire
+    (exec sem_acquire_wait_resumed t (loc_resume (Some f) None None) log0 (core (leave s t))).
+Proof. exact tie_acquire_wait_resumed. Qed.
+Print Assumptions C10_tie_sem_acquire_wait_resumed.
+
+Theorem C10_tie_sem_acquire_wait_cancelled : forall s t f,
+  phase_of s t = Waiting f ->
+  futs s f = FCancelled \/ (futs s f = FSet /\ mustc s t = true) ->
+  step s (Resume t) =
+  lift (leave s t) t KAcquireC
+    (exec sem_acquire_wait_cancelled t (loc_resume (Some f) None None) log0 (core (leave s t))).
+Proof. exact tie_acquire_wait_cancelled. Qed.
+Print Assumptions C10_tie_sem_acquire_wait_cancelled.
+
+Theorem C10_tie_sem_acquire_nowait : forall s t,
+  phase_of s t = Idle ->
+  step s (AcqNowait t) = lift s t KAcquire (exec sem_acquire_nowait_entry t (loc_entry None None) log0 (core s)).
+Proof. exact tie_acquire_nowait. Qed.
+Print Assumptions C10_tie_sem_acquire_nowait.
+
+Theorem C10_tie_sem_release : forall s t,
+  phase_of s t = Idle ->
+  step s (Release t) = lift s t KRelease (exec sem_release_entry t (loc_entry None None) log0 (core s)).
+Proof. exact tie_release. Qed.
+Print Assumptions C10_tie_sem_release.
+
+Theorem C10_tie_sem_getters : forall s,
+  eval_expr sem_value_getter (core s) = VNat (value s) /\
+  eval_expr sem_max_value_getter (core s) = match maxv s with Some m => VNat m | None => VNone end /\
+  map (fun x => eval_expr x (core s)) sem_statistics_args = [VNat (length (waiters s))].
+Proof. exact tie_getters. Qed.
+Print Assumptions C10_tie_sem_getters.
+
+Theorem C10_tie_sem_lift_spec : forall s t kd l g k o,
+  let s' := fst (lift s t kd (l, g, k, o)) in
+  core s' = mkh (h_fast k) (h_maxv k) (h_value k) (h_waiters k) (h_futs k) (h_nfut k) None [] [] (fun _ => false) 0 /\
+  snd (lift s t kd (l, g, k, o)) = match res_of o with Some x => x | None => RRejected end /\
+  phase_of s' = match o with
+                | OSuspend AwYield => upd (phase_of s) t FastYield
+                | OSuspend AwFut => match l_fut l with Some f => upd (phase_of s) t (Waiting f) | None => phase_of s end
+                | _ => phase_of s
+                end /\
+  mustc s' = mustc s /\ init0 s' = init0 s /\
+  held s' = match kd with
+            | KAcquire => if returned o then t :: held s else held s
+            | KAcquireC => held s
+            | KRelease => if returned o && mem t (held s) then remove_one t (held s) else held s
+            end /\
+  infl s' = g_woke g ++ match o with OSuspend AwYield => t :: infl s | _ => infl s end /\
+  extra s' = match kd with
+             | KRelease => if returned o && negb (mem t (held s)) then S (extra s) else extra s
+             | _ => extra s
+             end /\
+  dropped s' = match kd, o with KAcquireC, ORaise EValue => S (dropped s) | _, _ => dropped s end /\
+  enq s' = enq s ++ g_enq g.
+Proof. exact lift_spec. Qed.
+Print Assumptions C10_tie_sem_lift_spec.
+
+Theorem C10_tie_sem_gstep_eq_step : forall s o,
+  gstep sem_prog s o = step s o.
+Proof. exact gstep_eq_step. Qed.
+Print Assumptions C10_tie_sem_gstep_eq_step.
+
+Theorem C10_tie_sem_gen_conservation : forall fa iv mx ops, max_ok iv mx ->
+  let s := final (gstep sem_prog) (init fa iv mx) ops in
+  value s + length (held s) + length (infl s) + dropped s = iv + extra s /\
+  length (held s) + length (infl s) <= iv + extra s /\
+  dropped s <= extra s /\ (mx = None -> dropped s = 0) /\ (forall m, mx = Some m -> value s <= m).
+Proof. exact gen_conservation. Qed.
+Print Assumptions C10_tie_sem_gen_conservation.
+
+Theorem C10_tie_sem_gen_grant_only_if_free : forall fa iv mx ops t o, max_ok iv mx ->
+  let s := final (gstep sem_prog) (init fa iv mx) ops in
+  o = AcqBegin t \/ o = AcqNowait t ->
+  length (held (fst (gstep sem_prog s o))) + length (infl (fst (gstep sem_prog s o))) >
+    length (held s) + length (infl s) ->
+  value s = S (value (fst (gstep sem_prog s o))) /\ waiters s = [].
+Proof. exact gen_grant_only_if_free. Qed.
+Print Assumptions C10_tie_sem_gen_grant_only_if_free.
+
+Theorem C10_tie_sem_gen_fifo : forall fa iv mx ops, max_ok iv mx ->
+  let s := final (gstep sem_prog) (init fa iv mx) ops in
+  subseq (waiters s) (enq s) /\ (value s > 0 -> waiters s = []).
+Proof. exact gen_fifo. Qed.
+Print Assumptions C10_tie_sem_gen_fifo.
+
+Theorem C10_tie_sem_gen_release_hands_to_first_live : forall s t, phase_of s t = Idle -> at_max s = false ->
+  let s' := fst (gstep sem_prog s (Release t)) in
+  snd (gstep sem_prog s (Release t)) = RDone /\
+  ((exists w pre f, waiters s = pre ++ (w, f) :: waiters s' /\ futs s f <> FCancelled /\
+      (forall t' f', In (t', f') pre -> futs s f' = FCancelled) /\
+      infl s' = w :: infl s /\ value s' = value s /\ futs s' f = FSet) \/
+   (waiters s' = [] /\ (forall t' f', In (t', f') (waiters s) -> futs s f' = FCancelled) /\
+      infl s' = infl s /\ value s' = S (value s))).
+Proof. exact gen_release_hands_to_first_live. Qed.
+Print Assumptions C10_tie_sem_gen_release_hands_to_first_live.
+
+Theorem C10_tie_sem_gen_release_beyond_max_rejected : forall s t,
+  phase_of s t = Idle -> maxv s = Some (value s) -> gstep sem_prog s (Release t) = (s, RValue).
+Proof. exact gen_release_beyond_max_rejected. Qed.
+Print Assumptions C10_tie_sem_gen_release_beyond_max_rejected.
+
 (* ===================================== CapacityLimiter ===================================== *)
-From AV Require Import Limiter LimiterProofs LimiterThms.
+From AV Require Import Limiter LimiterProofs LimiterThms LimiterImp LimiterGen LimiterGenEq.
 
 Theorem C10_lim_grant_only_if_free : forall s o,
   let s' := fst (step s o) in
@@ -282,3 +415,160 @@ Theorem C10_lim_quiescent_initial : forall v s, reach v s -> tainted s = false -
   avail_code s = match total s with None => inf_code | Some n => nz n end.
 Proof. exact lim_quiescent_initial. Qed.
 Print Assumptions C10_lim_quiescent_initial.
+
+(* ---- tie T (CapacityLimiter): the segments of acquire_on_behalf_of (cut at its awaits) /
+   acquire_on_behalf_of_nowait / release_on_behalf_of / the total_tokens setter / the wrappers / the getters,
+   regenerated from /repo's source (LimiterGen.v), ARE the model's step, for every state, task and borrower.
+   `lift` (LimiterImp.v) as above; C10_tie_lim_lift_spec spells every field out.  phase_of / fcanc / mustc are
+   asyncio's state; held / resv / arrivals / tainted are history variables of the observer. ---- *)
+Theorem C10_tie_lim_acquire_entry : forall s t b,
+  phase_of s t = Idle ->
+  step s (AcqOn t b) =
+  lift s t (KAcquire b) (exec lim_acquire_on_behalf_of_entry t (loc_entry (Some b) None) log0 (core s)).
+Proof. exact tie_acquire_entry. Qed.
+Print Assumptions C10_tie_lim_acquire_entry.
+
+Theorem C10_tie_lim_acquire_yield_resumed : forall s t b,
+  phase_of s t = FastYield b -> mustc s t = false ->
+  step s (Resume t) =
+  lift (woken s t) t (KAcquire b)
+    (exec lim_acquire_on_behalf_of_yield_resumed t (loc_resume None (Some b) None) log0 (core (woken s t))).
+Proof. exact tie_acquire_yield_resumed. Qed.
+Print Assumptions C10_tie_lim_acquire_yield_resumed.
+
+Theorem C10_tie_lim_acquire_yield_cancelled : forall s t b,
+  phase_of s t = FastYield b -> mustc s t = true ->
+  step s (Resume t) =
+  lift (woken s t) t (KAcquire b)
+    (exec lim_acquire_on_behalf_of_yield_cancelled t (loc_resume None (Some b) None) log0 (core (woken s t))).
+Proof. exact tie_acquire_yield_cancelled. Qed.
+Print Assumptions C10_tie_lim_acquire_yield_cancelled.
+
+Theorem C10_tie_lim_acquire_event_resumed : forall s t b e,
+  phase_of s t = Waiting b e ->
+  evset s e = true -> fcanc s t = false -> mustc s t = false ->
+  step s (Resume t) =
+  lift (woken s t) t (KAcquire b)
+    (exec lim_acquire_on_behalf_of_event_resumed t (loc_resume None (Some b) (Some e)) log0 (core (woken s t))).
+Proof. exact tie_acquire_event_resumed. Qed.
+Print Assumptions C10_tie_lim_acquire_event_resumed.
+
+Theorem C10_tie_lim_acquire_event_cancelled : forall s t b e,
+  phase_of s t = Waiting b e ->
+  (evset s e = true \/ fcanc s t = true) -> fcanc s t || mustc s t = true ->
+  step s (Resume t) =
+  lift (woken s t) t (KAcquire b)
+    (exec lim_acquire_on_behalf_of_event_cancelled t (loc_resume None (Some b) (Some e)) log0 (core (woken s t))).
+Proof. exact tie_acquire_event_cancelled. Qed.
+Print Assumptions C10_tie_lim_acquire_event_cancelled.
+
+Theorem C10_tie_lim_acquire_nowait : forall s t b,
+  phase_of s t = Idle ->
+  step s (AcqOnNowait t b) =
+  lift s t (KAcquire b) (exec lim_acquire_on_behalf_of_nowait_entry t (loc_entry (Some b) None) log0 (core s)).
+Proof. exact tie_acquire_nowait. Qed.
+Print Assumptions C10_tie_lim_acquire_nowait.
+
+Theorem C10_tie_lim_release : forall s t b,
+  phase_of s t = Idle ->
+  step s (RelOn t b) =
+  lift s t (KRelease b) (exec lim_release_on_behalf_of_entry t (loc_entry (Some b) None) log0 (core s)).
+Proof. exact tie_release. Qed.
+Print Assumptions C10_tie_lim_release.
+
+Theorem C10_tie_lim_set_total : forall s t v,
+  phase_of s t = Idle ->
+  step s (SetTotal t v) =
+  lift s t KSetter (exec lim_total_tokens_entry t (loc_entry None (Some (tok_of v))) log0 (core s)).
+Proof. exact tie_set_total. Qed.
+Print Assumptions C10_tie_lim_set_total.
+
+Theorem C10_tie_lim_set_total_bad : forall s t k,
+  phase_of s t = Idle ->
+  step s (SetTotalBad t k) =
+  lift s t KSetter (exec lim_total_tokens_entry t (loc_entry None (Some (bad_tok k))) log0 (core s)).
+Proof. exact tie_set_total_bad. Qed.
+Print Assumptions C10_tie_lim_set_total_bad.
+
+Theorem C10_tie_lim_wrappers : forall s t,
+  phase_of s t = Idle ->
+  step s (AcqOnNowait t t) = lift s t (KAcquire t) (exec lim_acquire_nowait_entry t (loc_entry None None) log0 (core s)) /\
+  step s (RelOn t t) = lift s t (KRelease t) (exec lim_release_entry t (loc_entry None None) log0 (core s)).
+Proof. exact tie_wrappers. Qed.
+Print Assumptions C10_tie_lim_wrappers.
+
+Theorem C10_tie_lim_getters : forall s,
+  eval_expr lim_total_tokens_getter (core s) = match total s with Some n => VNat n | None => VInf end /\
+  eval_expr lim_borrowed_tokens_getter (core s) = VNat (length (borrowers s)) /\
+  eval_expr lim_available_tokens_getter (core s) =
+    match total s with Some n => VInt (Z.of_nat n - Z.of_nat (length (borrowers s))) | None => VInf end /\
+  map (fun x => eval_expr x (core s)) lim_statistics_args =
+    [VNat (length (borrowers s)); match total s with Some n => VNat n | None => VInf end;
+     VSet (borrowers s); VNat (length (queue s))].
+Proof. exact tie_getters. Qed.
+Print Assumptions C10_tie_lim_getters.
+
+Theorem C10_tie_lim_lift_spec : forall s t kd l g k o,
+  let s' := fst (lift s t kd (l, g, k, o)) in
+  core s' = mkh false None 0 [] (fun _ => Sem.FPending) 0 (h_total k) (h_borrowers k) (h_queue k) (h_evset k) (h_nev k) /\
+  snd (lift s t kd (l, g, k, o)) = match res_of o with Some x => x | None => RRejected end /\
+  phase_of s' = match o, l_bor l, l_ev l with
+                | OSuspend AwYield, Some b, _ => upd (phase_of s) t (FastYield b)
+                | OSuspend AwEvent, Some b, Some e => upd (phase_of s) t (Waiting b e)
+                | _, _, _ => phase_of s
+                end /\
+  fcanc s' = match o with OSuspend AwEvent => upd (fcanc s) t false | _ => fcanc s end /\
+  mustc s' = mustc s /\
+  held s' = match kd with
+            | KAcquire b => if returned o then b :: held s else held s
+            | KRelease b => if returned o then remove_one b (held s) else held s
+            | KSetter => held s
+            end /\
+  resv s' = g_grant g ++ match o, l_bor l with OSuspend AwYield, Some b => b :: resv s | _, _ => resv s end /\
+  arrivals s' = arrivals s ++ g_arr g /\
+  tainted s' = match kd with
+               | KRelease b => if returned o then tainted s || mem b (resv s) else tainted s
+               | _ => tainted s
+               end.
+Proof. exact lift_spec. Qed.
+Print Assumptions C10_tie_lim_lift_spec.
+
+Theorem C10_tie_lim_gstep_eq_step : forall s o,
+  gstep lim_prog s o = step s o.
+Proof. exact gstep_eq_step. Qed.
+Print Assumptions C10_tie_lim_gstep_eq_step.
+
+Theorem C10_tie_lim_gen_grant_only_if_free : forall s o,
+  let s' := fst (gstep lim_prog s o) in
+  (forall b, In b (borrowers s') -> In b (borrowers s)) \/ xle (length (borrowers s')) (total s').
+Proof. exact gen_grant_only_if_free. Qed.
+Print Assumptions C10_tie_lim_gen_grant_only_if_free.
+
+Theorem C10_tie_lim_gen_conservation : forall v ops,
+  let s := final (gstep lim_prog) (init v) ops in
+  tainted s = false ->
+  NoDup (borrowers s) /\
+  (forall b, In b (borrowers s) <-> In b (held s) \/ In b (resv s)) /\
+  (forall b, In b (held s) -> ~ In b (resv s)) /\
+  length (borrowers s) = length (held s) + length (resv s).
+Proof. exact gen_conservation. Qed.
+Print Assumptions C10_tie_lim_gen_conservation.
+
+Theorem C10_tie_lim_gen_fifo : forall v ops,
+  let s := final (gstep lim_prog) (init v) ops in
+  subseq (queue s) (arrivals s) /\ (queue s <> [] -> free (borrowers s) (total s) = false).
+Proof. exact gen_fifo. Qed.
+Print Assumptions C10_tie_lim_gen_fifo.
+
+Theorem C10_tie_lim_gen_keys_distinct : forall v ops,
+  let s := final (gstep lim_prog) (init v) ops in
+  NoDup (keys (queue s)) /\ (forall b, In b (keys (queue s)) -> ~ In b (borrowers s)) /\ NoDup (borrowers s).
+Proof. exact gen_keys_distinct. Qed.
+Print Assumptions C10_tie_lim_gen_keys_distinct.
+
+Theorem C10_tie_lim_gen_waiting_borrower_rejected : forall s t b,
+  phase_of s t = Idle -> In b (keys (queue s)) -> ~ In b (borrowers s) ->
+  gstep lim_prog s (AcqOn t b) = (s, RRuntime) /\ gstep lim_prog s (AcqOnNowait t b) = (s, RWouldBlock).
+Proof. exact gen_waiting_borrower_rejected. Qed.
+Print Assumptions C10_tie_lim_gen_waiting_borrower_rejected.
+
